@@ -146,7 +146,8 @@ func (l *Lib) Check21(t *Tally, build func(BuildOpts) b6.Expression, hasOneArgCa
 		for set := range l.Probes {
 			set := set
 			inner := cur
-			mk := func() b6.Expression { return l.Probe(inner(), k, set) }
+			d := depth
+			mk := func() b6.Expression { return l.Probe(inner(), k, set, d) }
 			pe := mk()
 			pref, pev := l.RunRef(pe)
 			if pref.ErrCat == "fuel" {
